@@ -3,6 +3,7 @@ package main
 import (
 	"fmt"
 	"go/constant"
+	"go/types"
 	"regexp"
 	"sort"
 	"strings"
@@ -42,6 +43,11 @@ func init() {
 		}
 		// the height asked of the node (a local, or the result of a helper that picks it) + 1
 		resultsH := `\((?:&?\w+|c\.\w+\(ctx, height\)#0) \+ 1\)`
+		// the proof runtime takes a merkle key path (url/hex-encoded segments under the store path), never a
+		// raw key: value and absence proofs alike are verified against the path built from the request path and
+		// the key the answer names (F44: the absence branch passed the raw key, which the runtime refuses or
+		// splits differently, so no honest absence proof was ever accepted)
+		kpath := `(?:dyn:)?c\.keyPathFn\(path, res\.Response\.Key\)#0\.String\(\)`
 		methods := []method{
 			{"Client.Block", blockGs()},
 			{"Client.BlockByHash", blockGs()},
@@ -58,8 +64,8 @@ func init() {
 				upd(`\(res\.Response\.Height \+ 1\)`),
 				guardCmp("response height positive", `res\.Response\.Height`, ">", "0"),
 				guardAny("value (or absence) proof verifies against the app hash of the verified header at response height + 1",
-					guardRe("v", `^nil\(c\.prt\.VerifyValue\(res\.Response\.ProofOps, `+lb(`\(res\.Response\.Height \+ 1\)`)+`\.SignedHeader\.Header\.AppHash, .*\.String\(\), res\.Response\.Value\)\)$`),
-					guardRe("a", `^nil\(c\.prt\.VerifyAbsence\(res\.Response\.ProofOps, `+lb(`\(res\.Response\.Height \+ 1\)`)+`\.SignedHeader\.Header\.AppHash, res\.Response\.Key\)\)$`)),
+					guardRe("v", `^nil\(c\.prt\.VerifyValue\(res\.Response\.ProofOps, `+lb(`\(res\.Response\.Height \+ 1\)`)+`\.SignedHeader\.Header\.AppHash, `+kpath+`, res\.Response\.Value\)\)$`),
+					guardRe("a", `^nil\(c\.prt\.VerifyAbsence\(res\.Response\.ProofOps, `+lb(`\(res\.Response\.Height \+ 1\)`)+`\.SignedHeader\.Header\.AppHash, `+kpath+`\)\)$`)),
 				guardCmp("proof present", `len\(res\.Response\.ProofOps\.Ops\)`, "!=", "0"),
 			}},
 			{"Client.BlockchainInfo", nil},
@@ -473,6 +479,189 @@ func init() {
 				}
 			}
 			c.Check(ok, "light/rpc.Client.Tx ensures "+g.Name, w.pos(f.Pos()), "success only behind it", "Tx can relay a proven transaction other than the one asked for")
+		}
+	})
+}
+
+// ------------------------------------------------------------------ C20.R11
+// The JSON-RPC server hands request parameters to a handler through the argument names a route was
+// registered with (rpc/jsonrpc/server: one name per handler parameter after the context). A route whose
+// name list and handler signature disagree can never answer — "too few input arguments", an index out of
+// range in the cache test, or a parameter unmarshalled into the wrong type (F42: net_info, genesis_chunked
+// and block_search of the light proxy). "Returned whenever an honest full node answers" needs, per route:
+// as many names as handler parameters; cache keys that are argument names; and, for the verifying proxy,
+// the same name list as the full node's route of that name (clients send the same request to either).
+type rpcRoute struct {
+	name    string
+	args    []string
+	nParams int // handler parameters after the context; -1 unknown
+	call    ssa.CallInstruction
+	fn      *ssa.Function
+	cacheBy []string
+}
+
+func rpcRoutesOf(w *World, f *ssa.Function) []rpcRoute {
+	var out []rpcRoute
+	strOf := func(v ssa.Value) (string, bool) {
+		k, ok := stripConv(v).(*ssa.Const)
+		if !ok || k.Value == nil || k.Value.Kind() != constant.String {
+			return "", false
+		}
+		return constant.StringVal(k.Value), true
+	}
+	for _, b := range f.Blocks {
+		for _, in := range b.Instrs {
+			mu, ok := in.(*ssa.MapUpdate)
+			if !ok {
+				continue
+			}
+			name, ok := strOf(mu.Key)
+			if !ok {
+				continue
+			}
+			call, ok := mu.Value.(*ssa.Call)
+			if !ok || !(w.isCall(call, "rpc/jsonrpc/server#NewRPCFunc") || w.isCall(call, "rpc/jsonrpc/server#NewWSRPCFunc")) {
+				continue
+			}
+			args := callArgs(call)
+			r := rpcRoute{name: name, nParams: -1, call: call, fn: f}
+			if s, ok := strOf(args[1]); ok {
+				if s != "" {
+					r.args = strings.Split(s, ",")
+				}
+			} else {
+				r.args = []string{"?non-constant"}
+			}
+			if sig, ok := underMakeInterface(args[0]).Type().Underlying().(*types.Signature); ok {
+				r.nParams = sig.Params().Len() - 1
+			}
+			// options: Cacheable("a", "b") → names
+			if len(args) > 2 {
+				for _, o := range sliceElems(args[2]) {
+					if oc, ok := o.(*ssa.Call); ok && w.isCall(oc, "rpc/jsonrpc/server#Cacheable") {
+						for _, a := range sliceElems(callArgs(oc)[0]) {
+							if s, ok := strOf(a); ok {
+								r.cacheBy = append(r.cacheBy, s)
+							}
+						}
+					}
+				}
+			}
+			out = append(out, r)
+		}
+	}
+	return out
+}
+
+func init() {
+	register("C20", "R11", "K5", "every RPC route is registered with exactly one argument name per handler parameter; the verifying proxy's routes take the arguments the full node's routes take", 60, func(c *Ctx) {
+		w := c.W
+		var core, proxy []rpcRoute
+		for _, f := range w.FuncsInPkg("rpc/core") {
+			core = append(core, rpcRoutesOf(w, f)...)
+		}
+		for _, f := range w.FuncsInPkg("light/proxy") {
+			proxy = append(proxy, rpcRoutesOf(w, f)...)
+		}
+		coreArgs := map[string]string{}
+		for _, r := range core {
+			coreArgs[r.name] = strings.Join(r.args, ",")
+		}
+		for _, set := range []struct {
+			pkg    string
+			routes []rpcRoute
+		}{{"rpc/core", core}, {"light/proxy", proxy}} {
+			for _, r := range set.routes {
+				key := set.pkg + " route " + r.name
+				c.Check(r.nParams >= 0 && r.nParams == len(r.args), key+" :: one argument name per handler parameter", w.ipos(r.call),
+					fmt.Sprintf("%d names", r.nParams), fmt.Sprintf("registered with %d argument name(s) %v for a handler taking %d parameter(s) after the context: the route cannot be called", len(r.args), r.args, r.nParams))
+				for _, k := range r.cacheBy {
+					found := false
+					for _, a := range r.args {
+						if a == k {
+							found = true
+						}
+					}
+					c.Check(found, key+" :: cache key "+k+" is an argument", w.ipos(r.call), "one of "+strings.Join(r.args, ","), "not an argument name")
+				}
+				if set.pkg == "light/proxy" {
+					if want, ok := coreArgs[r.name]; ok {
+						got := strings.Join(r.args, ",")
+						c.Check(got == want, key+" :: takes the arguments the full node's route takes", w.ipos(r.call), want, "proxy registers ("+got+"), the full node ("+want+")")
+					}
+				}
+			}
+		}
+		c.Check(len(core) >= 30 && len(proxy) >= 25, "route tables found", "-", ">= 30 core, >= 25 proxy", fmt.Sprintf("%d core, %d proxy", len(core), len(proxy)))
+	})
+}
+
+// ------------------------------------------------------------------ C20.R12
+// A lying server chooses every byte of an answer, including JSON nulls inside lists. A null member the
+// client dereferences (directly or in the hashing code it calls) is a panic of the caller, not a refusal of
+// the answer (F45: a null in txs_results reached types.NewResults; a null in a block's evidence list reached
+// Block.ValidateBasic). The sibling BlockchainInfo tests its metas one by one; the same is demanded wherever
+// the client hands a list of pointers from an answer to code that dereferences the members.
+func allElemsNonNilBefore(w *World, f *ssa.Function, slice string, at ssa.Instruction) (bool, string) {
+	for _, ea := range condEdges(f) {
+		if ea.A.Kind != "nil" || ea.A.V == nil {
+			continue
+		}
+		s := w.expr(ea.A.V)
+		if !strings.HasPrefix(s, slice+"[") {
+			continue
+		}
+		iff := ea.E.From.Instrs[len(ea.E.From.Instrs)-1]
+		if !edgeOnlyFails(w, f, ea.E.From.Succs[ea.E.Succ]) {
+			return false, "the nil member does not lead to an error return"
+		}
+		h := loopOf(iff)
+		if h == nil {
+			return false, "the nil test is not in a loop"
+		}
+		trips, ok := unitLoopTripsX(w, iff, func(b *ssa.BasicBlock) bool { return edgeOnlyFails(w, f, b) })
+		if !ok || trips != "len("+slice+")" {
+			return false, "the loop with the nil test does not visit every member (trip count " + trips + ")"
+		}
+		if loopBlocks(h)[at.Block()] || !h.Dominates(at.Block()) {
+			return false, "the members are not tested before the use"
+		}
+		return true, ""
+	}
+	return false, "no member of " + slice + " is tested for nil"
+}
+
+func init() {
+	register("C20", "R12", "K1+K9", "lists of pointers taken from an answer are tested member by member for null before code that dereferences the members sees them", 2, func(c *Ctx) {
+		w := c.W
+		if f := c.fn("light/rpc", "Client.BlockResults"); f != nil {
+			fk := funcKey(f)
+			n := 0
+			for _, call := range w.callsTo(f, "types#NewResults") {
+				n++
+				arg := w.expr(callArgs(call)[0])
+				ok, why := allElemsNonNilBefore(w, f, arg, call)
+				c.Check(ok, fk+" :: every tx result is tested for null before the results are hashed", w.ipos(call), "for each member: nil → error, before NewResults", why+": a null in txs_results is dereferenced by the hashing code")
+			}
+			c.Check(n == 1, fk+" :: results hashed once", w.pos(f.Pos()), "1", fmt.Sprintf("%d", n))
+		}
+		if f := c.fn("types", "Block.ValidateBasic"); f != nil {
+			fk := funcKey(f)
+			n := 0
+			for _, b := range f.Blocks {
+				for _, in := range b.Instrs {
+					call, ok := in.(*ssa.Call)
+					if !ok || !call.Call.IsInvoke() || call.Call.Method.Name() != "ValidateBasic" {
+						continue
+					}
+					if !strings.Contains(w.expr(call.Call.Value), ".Evidence.Evidence[") {
+						continue
+					}
+					n++
+					c.guards(f, call, fk+" :: validate a piece of evidence of the block", 0, guardNonNil("the list member is not nil", call.Call.Value))
+				}
+			}
+			c.Check(n == 1, fk+" :: evidence members validated", w.pos(f.Pos()), "1", fmt.Sprintf("%d", n))
 		}
 	})
 }
